@@ -36,6 +36,7 @@ type Config struct {
 	Trace        bool
 	StopOnFirst  bool
 	PerLabelCap  int // stop recording more than this many violations per label (still explored)
+	KeepAllSamples bool
 }
 
 func DefaultConfig() Config {
@@ -801,7 +802,7 @@ func (e *Engine) Run(pkgPath, fnName string) (*RunResult, error) {
 						res.Violations = append(res.Violations, v)
 					}
 				}
-				if len(res.Samples) < 6 && (pr.Status == "ok") {
+				if (len(res.Samples) < 6 || e.Cfg.KeepAllSamples) && (pr.Status == "ok") {
 					res.Samples = append(res.Samples, pr)
 				}
 				stop := e.Cfg.StopOnFirst && len(res.Violations) > 0
